@@ -16,7 +16,17 @@ def shapes(max_events, max_kind=2):
 
 
 # ------------------------------------------------------------------ symbolic side (imports z3 lazily)
-def sym_timing(shape, G, sym_bpm=True, bpm_values=None, prefix=""):
+def time_unit_den(bpm_values):
+    """Dn such that, with all times multiples of 1/Dn s, every half-tick boundary at every BPM of the set is a multiple and
+    there are 19 grid points strictly between neighbouring boundaries"""
+    import math
+    B = 1
+    for b in bpm_values:
+        B = B * b // math.gcd(B, b)
+    return 32 * B
+
+
+def sym_timing(shape, G, sym_bpm=True, bpm_values=None, prefix="", den=None):
     """Declare the symbolic timing data for a shape; returns dict of z3 variables. Preconditions are
     exactly the property's domain: first BPM at beat 0, BPMs in [1,2000], strictly increasing tick-aligned
     non-negative beats within each list, positive lengths."""
@@ -40,11 +50,24 @@ def sym_timing(shape, G, sym_bpm=True, bpm_values=None, prefix=""):
             S.assume(ib >= z3.RealVal("1/2000"), ib <= 1)
         V["vb"] = [symx.reciprocal(ib) for ib in V["ib"]]
     else:
-        for v, c in zip(V["vb"], bpm_values):
-            S.assume(v == c)
-    for v in V["vs"] + V["vd"]:
-        S.assume(v > 0, v <= 1000)
-    S.assume(V["off"] >= -10000, V["off"] <= 10000)
+        V["vb"] = [z3.RealVal(c) for c in bpm_values]
+    if den is not None:
+        # integer form: stop/delay lengths and the offset are integer multiples of 1/den seconds (pure LIA downstream)
+        V["den"] = den
+        for name in ("vs", "vd"):
+            V["n" + name[1]] = []
+            for i, v in enumerate(V[name]):
+                n = z3.Int(f"{P}n{name[1]}{i}")
+                S.assume(n >= 1, n <= 1000 * den)
+                V["n" + name[1]].append(n)
+                V[name][i] = z3.ToReal(n) / den
+        V["noff"] = z3.Int(f"{P}noff")
+        S.assume(V["noff"] >= -10000 * den, V["noff"] <= 10000 * den)
+        V["off"] = z3.ToReal(V["noff"]) / den
+    else:
+        for v in V["vs"] + V["vd"]:
+            S.assume(v > 0, v <= 1000)
+        S.assume(V["off"] >= -10000, V["off"] <= 10000)
     for l in V["lw"]:
         S.assume(l >= 1, l <= G)
     for lst, lo in ((V["kb"], 1), (V["ks"], 0), (V["kd"], 0), (V["kw"], 0)):
@@ -68,30 +91,71 @@ def build_td(mods, V, extra_bpm=None):
         j, kx, vx = extra_bpm
         bp.insert(j + 1, BeatValue(Beat(SymInt(kx), 48), DecShim(vx)))
     td.bpms = BeatValues(bp)
-    td.stops = BeatValues([BeatValue(Beat(SymInt(k), 48), DecShim(v)) for k, v in zip(V["ks"], V["vs"])])
-    td.delays = BeatValues([BeatValue(Beat(SymInt(k), 48), DecShim(v)) for k, v in zip(V["kd"], V["vd"])])
+    if "den" in V:
+        den = V["den"]
+        td.stops = BeatValues([BeatValue(Beat(SymInt(k), 48), DecShim._make(v, (n, den))) for k, v, n in zip(V["ks"], V["vs"], V["ns"])])
+        td.delays = BeatValues([BeatValue(Beat(SymInt(k), 48), DecShim._make(v, (n, den))) for k, v, n in zip(V["kd"], V["vd"], V["nd"])])
+    else:
+        td.stops = BeatValues([BeatValue(Beat(SymInt(k), 48), DecShim(v)) for k, v in zip(V["ks"], V["vs"])])
+        td.delays = BeatValues([BeatValue(Beat(SymInt(k), 48), DecShim(v)) for k, v in zip(V["kd"], V["vd"])])
     td.warps = BeatValues([BeatValue(Beat(SymInt(k), 48), DecShim._make(z3.ToReal(l) / 48, (l, 48))) for k, l in zip(V["kw"], V["lw"])])
-    td.offset = DecShim(V["off"])
+    td.offset = DecShim._make(V["off"], (V["noff"], V["den"])) if "den" in V else DecShim(V["off"])
     return td
 
 
-BRANCHING = True  # oracle conditionals are decided as solver case splits (pure LIA path conditions) instead of If-terms
+# ---- oracle: the documented timeline, written over interval measures with symx numbers -----------------------
+# Numbers are vlib.symx.FracShim values (exact rationals carrying, where possible, an integer numerator over a concrete
+# denominator so that every comparison is linear integer arithmetic).  Conditionals over tick positions and tags are
+# solver-decided case splits (CTL.branch), so the resulting expressions contain no If-terms.
+
+
+def _b(c):
+    """truth value of a condition (SymBool / z3 Bool / bool) as a solver case split"""
+    from vlib import symx
+    if isinstance(c, bool):
+        return c
+    return symx.CTL.branch(symx.bterm(c))
 
 
 def _ite(c, a, b):
-    import z3
-    from vlib import symx
-    if BRANCHING:
-        return a if symx.CTL.branch(c) else b
-    return z3.If(c, a, b)
+    return a if _b(c) else b
 
 
 def zmin(a, b):
-    return _ite(a <= b, a, b)
+    return a if _b(a <= b) else b
 
 
 def zmax(a, b):
-    return _ite(a >= b, a, b)
+    return a if _b(a >= b) else b
+
+
+def num(term, nd=None):
+    from vlib import symx
+    return symx.FracShim._make(term, nd)
+
+
+def tick(k):
+    """number for tick index k (z3 Int term or python int): k/48 beats"""
+    import z3
+    from vlib import symx
+    if isinstance(k, int):
+        return symx.FracShim(k, 48)
+    return symx.FracShim._make(z3.ToReal(k) / 48, (k, 48))
+
+
+def nums(V):
+    """number views of the symbolic timing data"""
+    from vlib import symx
+    den = V.get("den")
+    def val(t, n):
+        return num(t, (n, den)) if den else num(t)
+    return dict(
+        stops=[(tick(k), val(v, V["ns"][i] if den else None)) for i, (k, v) in enumerate(zip(V["ks"], V["vs"]))],
+        delays=[(tick(k), val(v, V["nd"][i] if den else None)) for i, (k, v) in enumerate(zip(V["kd"], V["vd"]))],
+        warps=[(tick(k), tick(k + l)) for k, l in zip(V["kw"], V["lw"])],
+        starts=[tick(0)] + [tick(k) for k in V["kb"]],
+        off=val(V["off"], V.get("noff")),
+    )
 
 
 def union_measure(iv, warps):
@@ -107,39 +171,54 @@ def union_measure(iv, warps):
 
 
 def oracle_time(V, kq, tag):
-    """Documented timeline (seconds, z3 Real) at tick kq under tag (python int or z3 Int).
-    Written over interval measures (no state machine).  Its conditionals are over tick positions and
-    tags only; with BRANCHING they become solver-decided case splits so that the final query is free of
-    If-terms (the If-term form made z3 answer unknown on the non-linear final query)."""
+    """Documented timeline at tick kq under tag (python int or z3 Int): a symx number (seconds)."""
     import z3
-    R = lambda k: z3.ToReal(k) / 48
-    q = R(kq)
+    from vlib import symx
+    N = nums(V)
+    q = tick(kq)
     nb = len(V["kb"])
-    warps = [(R(k), R(k + l)) for k, l in zip(V["kw"], V["lw"])]
-    starts = [z3.RealVal(0)] + [R(k) for k in V["kb"]]
-    exp = -V["off"]
+    exp = -N["off"]
     for i in range(nb + 1):
-        lo = starts[i]
-        hi = starts[i + 1] if i < nb else None
+        lo = N["starts"][i]
+        hi = N["starts"][i + 1] if i < nb else None
         if i == 0:
-            if _ite(q < 0, True, False) is True:
+            if _b(q < 0):
                 L = q
             else:
                 seg_hi = zmin(q, hi) if hi is not None else q
-                L = seg_hi - union_measure((z3.RealVal(0), seg_hi), warps)
+                L = seg_hi - union_measure((tick(0), seg_hi), N["warps"])
         else:
-            if _ite(q > lo, True, False) is True:
+            if _b(q > lo):
                 seg_hi = zmin(q, hi) if hi is not None else q
-                L = (seg_hi - lo) - union_measure((lo, seg_hi), warps)
+                L = (seg_hi - lo) - union_measure((lo, seg_hi), N["warps"])
             else:
                 L = 0
-        exp = exp + (60 * L * V["ib"][i] if "ib" in V else 60 * L / V["vb"][i])
-    tg = tag if not isinstance(tag, int) else z3.IntVal(tag)
-    for k, v in zip(V["ks"], V["vs"]):
-        exp = exp + _ite(z3.Or(q > R(k), z3.And(q == R(k), tg >= STOP_END)), v, 0)
-    for k, v in zip(V["kd"], V["vd"]):
-        exp = exp + _ite(z3.Or(q > R(k), z3.And(q == R(k), tg >= DELAY_END)), v, 0)
+        if "ib" in V:
+            exp = exp + 60 * L * V["ib"][i]
+        else:
+            exp = exp + 60 * L / bpm_number(V["vb"][i])
+    tg = symx.SymInt(tag) if symx.is_term(tag) else tag
+    for p, v in N["stops"]:
+        if _b(q > p) or (_b(q == p) and _b(tg >= STOP_END)):
+            exp = exp + v
+    for p, v in N["delays"]:
+        if _b(q > p) or (_b(q == p) and _b(tg >= DELAY_END)):
+            exp = exp + v
     return exp
+
+
+def bpm_number(v):
+    """concrete BPM RealVal -> python Fraction (keeps the integer form); symbolic terms stay terms"""
+    import z3
+    if z3.is_rational_value(v):
+        return Fraction(v.numerator_as_long(), v.denominator_as_long())
+    return v
+
+
+def rterm(x):
+    """z3 Real term of a symx number / python number"""
+    from vlib import symx
+    return symx.zr(symx.term_of(x))
 
 
 def oracle_in_warp(V, kq):
@@ -172,6 +251,16 @@ def model_timing(model, shape, prefix=""):
     P = prefix
     g = lambda n, default="0": Fraction(model.get(P + n, default))
     bpm = lambda i: (1 / g(f"ib{i}")) if (P + f"ib{i}") in model else g(f"b{i}", "120")
+    den = model.get("__den__")
+    if den:
+        den = Fraction(den)
+        return dict(
+            bpms=[(Fraction(0), bpm(0))] + [(g(f"kb{i}") / 48, bpm(i + 1)) for i in range(nb)],
+            stops=[(g(f"ks{i}") / 48, g(f"ns{i}", "1") / den) for i in range(ns)],
+            delays=[(g(f"kd{i}") / 48, g(f"nd{i}", "1") / den) for i in range(nd)],
+            warps=[(g(f"kw{i}") / 48, g(f"lw{i}", "1") / 48) for i in range(nw)],
+            off=g("noff") / den,
+        )
     return dict(
         bpms=[(Fraction(0), bpm(0))] + [(g(f"kb{i}") / 48, bpm(i + 1)) for i in range(nb)],
         stops=[(g(f"ks{i}") / 48, g(f"s{i}", "1")) for i in range(ns)],
